@@ -295,6 +295,30 @@ def rule_run_exit(m, rep, flagname, only=None):
                     if self_field_name(norm(T.call_term(bi))[2][0]) == flagname:
                         lb.add(bi)
             okd = C.must_pass(body, 0, {lm.d}, lb) and all(C.must_pass(body, s, {lm.d}, lb) for s in body.succs(lm.d, False))
+            if okd:
+                # ... and a test in front of the loop must not let the flag alone end the worker: from its "flag set" edge every
+                # way out of run() that does not go through the receive passes the `receiver.is_empty()` == true edge (a
+                # worker respawned after a panic starts here with the flag already set and metrics still queued)
+                empt = set()
+                for sw in range(len(body.blocks)):
+                    if body.blocks[sw]['term']['k'] != 'switch' or body.blocks[sw]['cleanup']:
+                        continue
+                    dt_, edges_ = T.switch_facts(sw)
+                    g_ = norm(dt_)
+                    if term_callee_is(g_, 'crossbeam_channel::channel::Receiver::is_empty') and _path_has_field(g_[2][0], m.f_receiver):
+                        empt |= set(s_ for s_, labs_ in edges_.items() if ('bool', True) in labs_ and ('bool', False) not in labs_)
+                exits_ = set(C.exits(body, False))
+                for l_ in lb:
+                    lct_ = norm(T.call_term(l_))
+                    for sw in range(len(body.blocks)):
+                        if body.blocks[sw]['term']['k'] != 'switch' or body.blocks[sw]['cleanup']:
+                            continue
+                        dt_, edges_ = T.switch_facts(sw)
+                        if norm(dt_) != lct_:
+                            continue
+                        for s_, labs_ in edges_.items():
+                            if ('bool', True) in labs_ and not C.must_pass(body, s_, exits_, empt | {lm.d}):
+                                okd = False
         rep.ob('R1b', 'run/flag-checked-before-blocking', okd, body.where(lm.d),
                'in every iteration the stop flag is tested before the blocking receive' if okd else
                'the blocking receive is not preceded by a test of the stop flag in the same iteration: a worker respawned '
